@@ -7,6 +7,12 @@
      GenOk_Src_C14    IPAddress arithmetic, bitwise operators, views                               (Model/Ip.v, AddrOps.v)
      GenOk_Src_C16    is_ipv4_mapped / is_ipv4_compat, ipv4, ipv6, IPNetwork.ipv6                   (Model/Conv.v)
      GenOk_Src_C12    key / sort_key                                                               (Model/Order.v)
-     GenOk_Src_C11    IPNetwork.__iadd__ / __isub__                                                (Model/Subnet.v) *)
+     GenOk_Src_C11    IPNetwork.__iadd__ / __isub__                                                (Model/Subnet.v)
+   and, for the functions with loops and lists (second round; Gen/pysrc_span_gen.v, pysrc_partition_gen.v, pysrc_iprange_gen.v):
+     GenOk_Src_C02    + IPAddress.netmask_bits and its while loop                                  (Model/Ip.v nb_loop)
+     GenOk_Src_C13    spanning_cidr, its for loop and its while loop                               (Model/Span.v)
+     GenOk_Src_C09    cidr_partition, its while loop, cidr_exclude                                 (Model/Partition.v)
+     GenOk_Src_C05    iprange_to_cidrs                                                             (Model/Merge.v)
+     GenOk_Src_C04    IPNetwork.__contains__ / IPRange.__contains__ on the three BaseIP operands   (Model/Contains.v) *)
 From NV Require Export Proofs.GenOk_Src_Const Proofs.GenOk_Src_C02 Proofs.GenOk_Src_C14 Proofs.GenOk_Src_C16
-  Proofs.GenOk_Src_C12 Proofs.GenOk_Src_C11.
+  Proofs.GenOk_Src_C12 Proofs.GenOk_Src_C11 Proofs.GenOk_Src_C13 Proofs.GenOk_Src_C09 Proofs.GenOk_Src_C05 Proofs.GenOk_Src_C04.
